@@ -63,9 +63,13 @@ def run(ck):
     ck.prove("Props/C11.v")
     cases = make_cases(rng, quick)
     ck.log("implementation: %d prior objects" % len(cases))
+    kf = [f for f in vlib.load_known_findings()["findings"] if f.get("property") == "C11" and f.get("id") == "C11-truncnorm-right-tail"]
+    for f in kf:
+        cases.append(dict(f["witness"]))
     res = ck.run_impl("impl_c11.py", cases)
     goals = []
     oracle_bad, book_bad = [], []
+    known_hits = []
     for ci, (c, r) in enumerate(zip(cases, res)):
         ck.bump("kind", c["kind"]); ck.bump("suffix", c["suffix"] or "(none)")
         ck.count(json.dumps(c), nontrivial=True)
@@ -73,8 +77,19 @@ def run(ck):
         if nanpts:
             r["oracle"].append("NaN / infinite log-density at %s" % nanpts[:2])
             r.pop("jacobian_diffs", None)
+        # recorded finding C11-truncnorm-right-tail: a two-sided window lying entirely more than 4.5 sigma ABOVE loc is evaluated by
+        # numpyro in float32 through the cancelling difference Phi(b) - Phi(a): log_prob is wrong by > 1e-2, then +inf
+        in_kf = bool(kf) and c["kind"] == "truncated" and c.get("low") is not None and c.get("high") is not None \
+            and (c["low"] - c["loc"]) / c["scale"] > kf[0]["applies"]["low_sigma_above"]
+        if in_kf:
+            sup = [m for m in r["oracle"] if m.startswith("log_prob(") and "outside the support" not in m or m.startswith("NaN / infinite") or m.startswith("non-finite")]
+            if sup:
+                known_hits.append((c, sup))
+            r["oracle"] = [m for m in r["oracle"] if m not in sup]
         if r["oracle"]:
             oracle_bad.append((c, r))
+        if in_kf:
+            continue        # no model goals for the recorded failing class (its log-densities are not finite)
         want_key = ("sky_back" if c.get("sky") else "r_eff") + c["suffix"]
         if r["key"] != want_key or not r["reparam"]:
             book_bad.append((c, r["key"], r["reparam"]))
@@ -136,6 +151,9 @@ def run(ck):
     ck.oblige("correspondence:stored under name+suffix with TransformReparam", "correspondence", not book_bad, json.dumps(book_bad[:2]))
     ck.oblige("oracle:log_prob / samples of the real prior objects == the stated laws (scipy), support respected", "correspondence",
               not oracle_bad, json.dumps(oracle_bad[0][1]["oracle"][:2]) if oracle_bad else "")
+    if known_hits:
+        ck.known_finding("%s (reproduced on %d case(s) of this run)" % (kf[0]["text"], len(known_hits)))
+    ck.extra["known_finding_cases"] = len(known_hits)
     ck.samples += [{"case": c, "points": [(float.fromhex(x), l if l in ("-inf", "nan") else float.fromhex(l)) for x, l in r["points"][:3]]} for c, r in list(zip(cases, res))[:4]]
     ck.trusted += ["Coq 8.16.1 kernel; Interval; Reals axioms", "translator unit PriorHelpers",
                    "numpyro TransformedDistribution/AffineTransform semantics modelled by pushed_lpdf (log|scale| Jacobian) and exposed = loc + scale*base; standard normal CDF abstract "
